@@ -71,6 +71,17 @@ structure Fixup where
   fmt    : OffsetFormat
   deriving Repr, Inhabited, DecidableEq
 
+/-- GHOST (not part of the C++ state, never read by any model function, never printed): the record of a label
+reference at the moment its fixup was created - site (section, offset of the field's word), addend `rel`, field
+format, label.  Props/C03 states the end-to-end theorems about every entry of this log. -/
+structure GRef where
+  sec    : Nat
+  offset : Nat
+  rel    : BitVec 64
+  fmt    : OffsetFormat
+  label  : Nat
+  deriving Repr, Inhabited, DecidableEq
+
 /-- `LabelEntry`: `_offset_or_fixups` + bound section. -/
 inductive LabelEntry where
   | unbound (fx : List Fixup)
@@ -114,6 +125,7 @@ structure State where
   addrTab    : List AddrEntry                -- `_address_table_entries` (in insertion order)
   addrTabSec : Option Nat                    -- `_address_table_section`
   cur        : Nat
+  ghost      : List GRef := []               -- GHOST log of every patchable reference ever created (see `GRef`)
   deriving Repr, Inhabited
 
 def noBase : BitVec 64 := BitVec.allOnes 64
@@ -174,10 +186,18 @@ def switchSection (s : State) (id : Nat) : State × Err :=
 /-- `CodeHolder::new_fixup` (repaired, fixes/C03-2.patch): a fixup for an unbound label is pushed on the label's own
 list; a fixup for a label that is already bound (only reached when it is bound in *another* section) goes straight to
 the cross-section list `_fixups` carrying the label id.  Both count as unresolved. -/
+def Fixup.toG (f : Fixup) (l : Nat) : GRef := { sec := f.sec, offset := f.offset, rel := f.rel, fmt := f.fmt, label := l }
+
+/-- ghost log: a fixup that will be patched by `write_offset` (i.e. one that does not merely feed a relocation) -/
+def logRef (g : List GRef) (l : Nat) (f : Fixup) : List GRef :=
+  match f.lr with
+  | none => g ++ [f.toG l]
+  | some _ => g
+
 def newFixup (s : State) (l : Nat) (f : Fixup) : State :=
   match s.labels[l]? with
-  | some (.unbound fx) => { s with labels := s.labels.set l (.unbound (f :: fx)), count := s.count + 1 }
-  | some (.bound _ _)  => { s with fixups := { f with lr := some l } :: s.fixups, count := s.count + 1 }
+  | some (.unbound fx) => { s with labels := s.labels.set l (.unbound (f :: fx)), count := s.count + 1, ghost := logRef s.ghost l f }
+  | some (.bound _ _)  => { s with fixups := { f with lr := some l } :: s.fixups, count := s.count + 1, ghost := logRef s.ghost l f }
   | none => s
 
 /-- accumulator of the `ResolveFixupIterator` loops -/
